@@ -50,7 +50,7 @@ def year_range(cfg):
 
 
 # cycle boundaries worth visiting in the quick tier: every cfg gets blocks around these day numbers
-SPECIAL_JDS = [LO, HI - BLOCK, -BLOCK // 2, 1721426 - BLOCK // 2, 1948440 - BLOCK // 2, 2299160 - BLOCK // 2,
+SPECIAL_JDS = [LO, HI + 1 - BLOCK, -BLOCK // 2, 1721426 - BLOCK // 2, 1948440 - BLOCK // 2, 2299160 - BLOCK // 2,
                2440588 - BLOCK // 2, 2453442 - BLOCK // 2, 2459673 - BLOCK // 2, 2121446 - BLOCK // 2,
                1724221 - BLOCK // 2, 2305448 - BLOCK // 2]
 
@@ -95,7 +95,7 @@ class CalSpec(Spec):
             reqs = []
             for cfg in CFGS:
                 if tier == "thorough":
-                    reqs += jd_blocks(cfg, LO, HI)
+                    reqs += jd_blocks(cfg, LO, HI + 1)   # the domain is closed: +40 000 000 itself included
                 else:
                     seen = set()
                     # dense window around the historical era, every special boundary, random blocks
